@@ -174,6 +174,9 @@ func helperOverlay(repo, unit string, ud struct{ dir, pkg string }, env []string
 		pkgDir = filepath.Join(repo, "vgirpc")
 	}
 	cands := newHelperNames(pkgDir, unit)
+	if os.Getenv("VERIF_DEBUG_NORMALISE") != "" {
+		fmt.Fprintln(os.Stderr, "normalise", unit, pkgDir, "candidates:", cands)
+	}
 	if len(cands) == 0 {
 		return nil
 	}
@@ -205,8 +208,19 @@ func helperOverlay(repo, unit string, ud struct{ dir, pkg string }, env []string
 			}
 		}
 		if root == nil || len(root.Errors) > 0 || root.TypesInfo == nil {
-			if lastKey == "" || root == nil {
+			if os.Getenv("VERIF_DEBUG_NORMALISE") != "" && root != nil {
+				fmt.Fprintln(os.Stderr, "normalise", unit, "iteration", iter, "after", lastKey, "errors:", root.Errors)
+			}
+			if root == nil || iter == 0 {
 				return nil // the tree as given does not load: LoadUnit reports it
+			}
+			if lastKey == "" {
+				// the step before was the removal of a helper declaration that is no
+				// longer referenced; typically its imports are now unused
+				if fixed := dropUnusedImports(overlay, root.Errors); fixed {
+					continue
+				}
+				break // keep the last overlay that type-checked
 			}
 			// imports the inliner added for a form it then reduced away: drop them and re-check
 			if fixed := dropUnusedImports(overlay, root.Errors); fixed {
@@ -383,6 +397,7 @@ func helperOverlay(repo, unit string, ud struct{ dir, pkg string }, env []string
 		}
 		if !okEd {
 			failed[key] = true
+			normLog = append(normLog, fmt.Sprintf("normalise %s: %s not inlined: edit outside the file", unit, key))
 			continue
 		}
 		sort.Slice(eds, func(i, j int) bool { return eds[i].s > eds[j].s })
